@@ -73,6 +73,7 @@ type streamState struct {
 
 	matchedStart int
 	checked      bool
+	users        int // tasks currently inside a Next/TryNext + Decode on this stream
 	scanned      int // global index of an event the stream is known to have examined (0: none); its position is at or after it
 }
 
@@ -228,6 +229,7 @@ func (a *actor) exec(op *Op) *CallRec {
 	case "clock":
 		// wall clock step (NTP correction, VM resume); timers keep following the monotonic clock
 		e.noteWall()
+		e.wallSteps = append(e.wallSteps, wallStep{At: e.sim.Elapsed(), Before: time.Now().Add(e.sim.WallOffset())})
 		e.sim.SetWallOffset(e.sim.WallOffset() + time.Duration(op.Ms)*time.Millisecond)
 		if op.Ms >= 0 {
 			e.fault("clock-jump")
@@ -785,6 +787,9 @@ func (a *actor) next(op *Op) *CallRec {
 		}
 		ctx, done := e.opCtx(a.t, op.Ctx, op.Ms)
 		defer done()
+		st.users++
+		shared := st.users > 1
+		defer func() { st.users-- }()
 		var ok bool
 		if op.K == "next" {
 			ok = st.s.Next(ctx)
@@ -814,9 +819,10 @@ func (a *actor) next(op *Op) *CallRec {
 			return
 		}
 		c.Err = st.s.Err()
-		if c.Err == nil && st.ended == "" {
+		if c.Err == nil && st.ended == "" && !shared && st.users == 1 {
 			// no new event: what Decode hands out now is at most the event delivered last, never one the stream
-			// skipped as out of scope or has not delivered
+			// skipped as out of scope or has not delivered (not judged while another task is between its own
+			// Next and Decode on the same stream: its event is delivered but not yet recorded)
 			var ev bson.D
 			if err := st.s.Decode(&ev); err == nil {
 				if n := len(st.events); n == 0 || !model.Same(ev, st.events[n-1]) {
